@@ -100,8 +100,22 @@ def gen_case(rng, max_cells=6):
     for fam in gc.families(asm):
         x = rng.choice(fam)
         if rng.random() < 0.25:
-            asm.chops[x] = [gen_chop(rng, multi=True), gen_chop(rng, multi=True)]
-            mode = "multi"
+            if rng.random() < 0.4:
+                # sections of unequal extent, some or all of them uniform (expansion exactly 1): reversing such a grading
+                # changes only the ORDER of its sections
+                lrs = rng.choice([(0.25, 0.75), (0.75, 0.25), (0.375, 0.625), (0.25, 0.25, 0.5), (0.5, 0.125, 0.375)])
+                counts = rng.sample([3, 4, 5, 6, 7, 9], len(lrs))
+                secs = []
+                for lr, n in zip(lrs, counts):
+                    kw = dict(count=n, length_ratio=lr, preserve=rng.choice(["start_size", "end_size", "c2c_expansion"]))
+                    if rng.random() < 0.25:
+                        kw["c2c_expansion"] = rng.choice([0.9, 1.1, 1.2])
+                    secs.append(kw)
+                asm.chops[x] = secs
+                mode = "multi-uniform"
+            else:
+                asm.chops[x] = [gen_chop(rng, multi=True), gen_chop(rng, multi=True)]
+                mode = "multi"
         else:
             asm.chops[x] = [gen_chop(rng)]
     # a second chopped direction in one family: same chop (consistent) or same count with another expansion
@@ -124,6 +138,20 @@ def gen_case(rng, max_cells=6):
             asm.chops[dst] = [dict(count=n, c2c_expansion=rng.choice([1.0, 1.2, 0.8]))]
             mode = "two-conflicting"
     asm.mode = mode
+    # curved edges (three-point arcs) on random block edges: the length of a wire is the length of its edge, also on
+    # blocks that only receive their grading by propagation and on wires that no other block shares
+    if rng.random() < 0.4:
+        for _ in range(rng.randint(1, 3)):
+            ci = rng.randrange(len(cells))
+            a = rng.randrange(3)
+            c1, c2 = gc.AXIS_PAIRS_REF[a][rng.randrange(4)]
+            off = [rng.choice([-0.375, -0.25, 0.25, 0.375, 0.5]) if k != lattice_dir(perms[ci], a)[0] else 0.0 for k in range(3)]
+            if rng.random() < 0.5:
+                off[rng.choice([k for k in range(3) if off[k] != 0.0])] = 0.0
+            if any(off):
+                asm.arcs.append([ci, c1, c2, off])
+        if asm.arcs:
+            asm.mode += "+arcs"
     return asm
 
 
@@ -187,7 +215,8 @@ def run_impl(asm, workdir, prio=None):
         orig_add(self, chop)
         owners = [lab for lab, w in all_wires if w.grading is self]
         if len(owners) == 1:
-            fills.append(dict(wire=list(owners[0]), index=i, length=float(self.length), chop=chop_view(chop),
+            fills.append(dict(wire=list(owners[0]), index=i, length=float(self.length), wlen=float(dict(all_wires)[owners[0]].length),
+                              chop=chop_view(chop),
                               spec=[float(self.specification[-1][0]), int(self.specification[-1][1]), float(self.specification[-1][2])]))
         elif len(owners) > 1:
             fills.append(dict(wire=list(owners[0]), index=i, length=float(self.length), chop=None, shared=len(owners),
@@ -541,7 +570,7 @@ Open Scope R_scope.
 def real_goal(k, f):
     """interval goal: the section recorded in f realises the chop's value on the wire's length"""
     lr, n, fld, val, _tag = f["chop"]
-    L = f["length"] * lr
+    L = f.get("wlen", f["length"]) * lr   # the wire's own (edge) length, not what its Grading object believes
     E = f["spec"][2]
     R = core.float_to_R
     body = "realises_tol %s %s %s %d %s %s" % (FLD[fld], R(val), R(L), n, R(E), R(TOL_SEQ))
@@ -655,7 +684,7 @@ class C04(Prop):
             for f in r["fills"]:
                 if f["chop"] is None or f["chop"][1] < 2:
                     continue
-                key = (round(f["length"], 9), tuple(f["chop"][:4]), f["spec"][2])
+                key = (round(f.get("wlen", f["length"]), 9), tuple(f["chop"][:4]), f["spec"][2])
                 if key in seen:
                     continue
                 seen.add(key)
